@@ -207,6 +207,7 @@ struct ChildCfg {
     done_routes: BTreeSet<String>,
     gfrom: usize,
     disabled: BTreeSet<String>,
+    fail_count: BTreeMap<String, usize>,
     tier_thorough: bool,
     seed: u64,
     log: std::fs::File,
@@ -221,7 +222,7 @@ impl ChildCfg {
 }
 
 fn cases_for(ty: &Ty, seed: u64, idx: usize, thorough: bool) -> Vec<Val> {
-    let (cap, nrand) = if thorough { (120, 400) } else { (40, 40) };
+    let (cap, nrand) = if thorough { (120, 400) } else { (28, 20) };
     let mut v = ty.boundary(cap);
     let mut r = Rng::new(seed.wrapping_mul(1000003).wrapping_add(idx as u64));
     for k in 0..nrand {
@@ -319,7 +320,7 @@ fn run_route<T>(
         return;
     }
     if cfg.disabled.contains(name) {
-        cfg.emit(&format!("E {} {}\tSKIPPED\troute disabled after repeated aborts", k, name));
+        cfg.emit(&format!("E {} {}\tSKIPPED\troute disabled after repeated aborts or failures", k, name));
         return;
     }
     if DIRTY.with(|d| d.get()) {
@@ -341,6 +342,15 @@ fn run_route<T>(
     }
     let note = LAST_PANIC.with(|p| p.borrow().clone());
     cfg.emit(&format!("E {} {}\t{}\t{}", k, name, r, note.replace(['\n', '\t'], " ")));
+    // a route that keeps failing on this type is established as failing: stop paying for the VM
+    // rebuild every failure costs (quick tier: after 6 failures, thorough: after 40)
+    if r == "FAIL" || r == "ERR" {
+        let n = cfg.fail_count.entry(name.to_string()).or_insert(0);
+        *n += 1;
+        if *n >= if cfg.tier_thorough { 40 } else { 6 } {
+            cfg.disabled.insert(name.to_string());
+        }
+    }
 }
 
 type Serde<'a, T> = &'a dyn Fn(&mut St<T>, &Progs, &mut ChildCfg, &BTreeSet<String>, usize, &T);
@@ -433,6 +443,14 @@ where
     };
     // every pick becomes a global (an extern module holding the Rust value); a definition that
     // fails or leaves the VM unusable is reported as its own observable and the VM is rebuilt
+    let fname = format!("c11f{}", cfg.idx);
+    let load_f = |vm: &RootedThread, name: &str| -> bool {
+        guard(|| match vm.load_script(name, &progs.id) {
+            Ok(()) => "OK".to_string(),
+            Err(e) => err_class(&e),
+        }) == "OK"
+    };
+    let mut f_ok = load_f(&st.vm, &fname);
     let mut gnames: Vec<(String, String, bool)> = Vec::new();
     let define = |vm: &RootedThread, name: &str, val: &Val| -> bool {
         let x: T = T::from_val(val);
@@ -453,6 +471,7 @@ where
             let why = LAST_PANIC.with(|p| p.borrow().clone());
             eprintln!("global {} could not be defined: {}", name, why);
             std::mem::forget(std::mem::replace(&mut st, mk_state::<T>(&progs, true)));
+            f_ok = load_f(&st.vm, &fname);
             for g in gnames.iter() {
                 if g.2 {
                     let v = picks.iter().find(|p| p.text() == g.1).unwrap();
@@ -463,17 +482,25 @@ where
         gnames.push((name, val.text(), ok));
     }
     let vm = st.vm.clone();
-    let fname = format!("c11f{}", cfg.idx);
-    let f_ok = guard(|| match vm.load_script(&fname, &progs.id) {
-        Ok(()) => "OK".to_string(),
-        Err(e) => err_class(&e),
-    }) == "OK";
     cfg.emit(&format!(
         "P {}",
         gnames.iter().map(|g| format!("{}={}", g.1, if g.2 { "1" } else { "0" })).collect::<Vec<_>>().join("\t")
     ));
     let mut m = Mismatch { cfg, vm: &vm, gnames: &gnames, fname: &fname, f_ok, cur: 0 };
     fam::visit_all(&mut m);
+    // a later, unrelated load must not change the answer for a request at the global's own type
+    let later = load_f(&vm, &format!("c11f{}later", m.cfg.idx));
+    for (name, val, ok) in gnames.iter() {
+        if !*ok || !later {
+            continue;
+        }
+        let r = guard(|| match vm.get_global::<T>(name) {
+            Ok(y) => format!("1:{}", render(&y)),
+            Err(gluon::vm::Error::WrongType(..)) => "0".to_string(),
+            Err(e) => vm_err_class(&e),
+        });
+        m.cfg.emit(&format!("R {}\t{}", val, r));
+    }
     m.cfg.emit("DONE");
     // the process exits right after: skip the destructors of a VM that may have panicked
     std::mem::forget(st);
@@ -677,6 +704,7 @@ struct TypeResult {
     serde: bool,
     cases: BTreeMap<usize, (String, BTreeMap<String, (String, String)>)>,
     picks: Vec<(String, bool)>,
+    regets: Vec<(String, String)>,
     pairs: BTreeMap<usize, (String, String, Vec<String>)>,
     done: bool,
     cases_done: bool,
@@ -717,6 +745,10 @@ fn parse_child_log(path: &std::path::Path, res: &mut TypeResult) -> Option<(Stri
                         (v.to_string(), ok == "1")
                     })
                     .collect();
+            }
+            "R" => {
+                let (v, r) = rest.split_once('\t').unwrap();
+                res.regets.push((v.to_string(), r.to_string()));
             }
             "B" => {
                 let (a, b) = rest.split_once(' ').unwrap();
@@ -840,7 +872,7 @@ fn main() {
         let gfrom: usize = argv[5].parse().unwrap();
         let log = std::fs::OpenOptions::new().create(true).append(true).open(&argv[8]).expect("child log");
         let disabled: BTreeSet<String> = if argv[9] == "-" { BTreeSet::new() } else { argv[9].split(',').map(|s| s.to_string()).collect() };
-        let cfg = ChildCfg { idx, from_case, done_routes, gfrom, disabled, tier_thorough: argv[6] == "thorough", seed: argv[7].parse().unwrap(), log };
+        let cfg = ChildCfg { idx, from_case, done_routes, gfrom, disabled, fail_count: BTreeMap::new(), tier_thorough: argv[6] == "thorough", seed: argv[7].parse().unwrap(), log };
         // panics are caught per route; keep stderr small (message only, no backtrace)
         std::panic::set_hook(Box::new(|info| {
             let msg = format!("{}", info);
@@ -933,6 +965,12 @@ fn main() {
             writeln!(model_in, "D\t{}\t{}", tcode, pval).unwrap();
             writeln!(impl_out, "define={}", if *ok { "OK" } else { "FAIL" }).unwrap();
             writeln!(cases_txt, "D\t{}\t{}\t-\t{}\t", idx, name, pval).unwrap();
+            evaluations += 1;
+        }
+        for (pval, r) in &res.regets {
+            writeln!(model_in, "R\t{}\t{}", tcode, pval).unwrap();
+            writeln!(impl_out, "reget={}", r).unwrap();
+            writeln!(cases_txt, "R\t{}\t{}\t-\t{}\t", idx, name, pval).unwrap();
             evaluations += 1;
         }
         for (w, (wtcode, fs, xs)) in &res.pairs {
